@@ -451,6 +451,11 @@ impl ContinuityStore {
     ) -> Result<Self, String> {
         let index = load_index(&index_path(&data_dir)).unwrap_or_default();
         let (sender, _receiver) = broadcast::channel(EVENT_CHANNEL_CAPACITY);
+        #[cfg(rip_verif)]
+        let sender = match crate::verif::event_channel_capacity_override() {
+            Some(capacity) => broadcast::channel(capacity).0,
+            None => sender,
+        };
         let stream_cache = ContinuityStreamCache::new(&data_dir);
         Ok(Self {
             data_dir,
